@@ -55,6 +55,7 @@ Do(name, e) ==
     [] name = "StartPull" -> StartPull
     [] name = "StopPull"  -> StopPull
     [] name = "KickPull"  -> KickPull
+    [] name = "KickStale" -> KickStale
     [] name = "PullOk"    -> PullOk
     [] name = "PullFail"  -> PullFail
     [] name = "PullEnd"   -> PullEnd
